@@ -665,3 +665,33 @@ silent('C20', 'sink-edge-attribute-guarded',
 silent('C20', 'machine-new-helper-attribute',
        lambda p: M.chain(p, lambda q: M.insert_after(q, N_MAC, 'Machine.__init__', M.assign_to('self.blocking'), 'self.extra_counter = 0'),
                          lambda q: M.insert_after(q, N_MAC, 'Machine.worker', M.stmt_calling('self._update_avg_time_spent_in_processing'), 'self.extra_counter += 1')))
+
+# ============================================================================================ C13
+fire('C13', 'continuous-arrival-event-never-fired', 'C13.R1', 'continuous_conveyor.py::ConveyorBelt.behaviour',
+     lambda p: M.delete_stmt(p, E_CC, 'ConveyorBelt.put', M.stmt_calling('self.item_arrival_event.succeed')))
+fire('C13', 'belt-ready-event-never-fired', 'C13.R1', 'ready_item_event',
+     lambda p: M.replace_node(p, S_BELT, 'BeltStore.move_to_ready_items', M.if_testing('self.ready_item_event.triggered'), 'pass'))
+fire('C13', 'belt-resume-never-fired', 'C13.R', 'BeltStore',
+     lambda p: M.delete_stmt(p, S_BELT, 'BeltStore.resume_all_move_processes', M.stmt_calling('old_resume_event.succeed')))
+fire('C13', 'belt-handler-forgets-elapsed', 'C13.R2', 'interrupt-handler',
+     lambda p: M.delete_stmt(p, S_BELT, 'BeltStore.move_to_ready_items', M.assign_to('remaining_phase2_time'), which=2))
+fire('C13', 'slot-handler-no-resume-wait', 'C13.R2', 'interrupt-handler',
+     lambda p: M.delete_stmt(p, S_SLOT, 'BeltStore.move_to_ready_items', lambda n: isinstance(n, ast.Expr) and isinstance(n.value, ast.Yield) and 'resume_event' in ast.unparse(n), which=0))
+fire('C13', 'belt-resume-fires-before-fresh-event', 'C13.R2', 'resume_all_move_processes',
+     lambda p: M.chain(p, lambda q: M.delete_stmt(q, S_BELT, 'BeltStore.resume_all_move_processes', M.assign_to('self.resume_event')),
+                       lambda q: M.insert_after(q, S_BELT, 'BeltStore.resume_all_move_processes', M.stmt_calling('old_resume_event.succeed'), 'self.resume_event = self.env.event()')))
+fire('C13', 'continuous-stall-does-not-interrupt', 'C13.R3', 'continuous_conveyor.py::ConveyorBelt.set_conveyor_state',
+     lambda p: M.delete_stmt(p, E_CC, 'ConveyorBelt.set_conveyor_state', M.stmt_calling('self.belt.selective_interrupt')))
+fire('C13', 'slotted-release-does-not-resume', 'C13.R3', 'slotted_conveyor.py::ConveyorBelt.set_conveyor_state',
+     lambda p: M.delete_stmt(p, E_SC, 'ConveyorBelt.set_conveyor_state', M.stmt_calling('self.belt.resume_all_move_processes')))
+fire('C13', 'continuous-behaviour-writes-state', 'C13.R3', 'state-single-writer',
+     lambda p: M.replace_node(p, E_CC, 'ConveyorBelt.behaviour', M.stmt_calling('self.set_conveyor_state', 'MOVING_STATE'), 'self.state = "MOVING_STATE"'))
+fire('C13', 'slotted-stalled-branch-sets-moving', 'C13.R3', 'covers-empty-moving-stalled',
+     lambda p: M.replace_node(p, E_SC, 'ConveyorBelt.behaviour', M.stmt_calling('self.set_conveyor_state', 'STALLED_NONACCUMULATING_STATE'), 'self.set_conveyor_state("MOVING_STATE")'))
+fire('C13', 'belt-gate-removed', 'C13.R4', 'BeltStore._do_reserve_put',
+     lambda p: M.replace_node(p, S_BELT, 'BeltStore._do_reserve_put', M.if_testing('self.accumulation_mode_indicator'),
+                              lambda s: 'if True:' + s[s.index(':', s.index('len(self.ready_items)==0) :') if 'len(self.ready_items)==0) :' in s else s.index(':')) + 1:]))
+fire('C13', 'machine-interrupts-belt-process', 'C13.R5', 'Machine.worker',
+     lambda p: M.insert_after(p, N_MAC, 'Machine.worker', M.stmt_calling('self._update_avg_time_spent_in_processing'), 'self.env.active_process.interrupt("x")'))
+silent('C13', 'belt-handler-extra-logging',
+       lambda p: M.insert_before(p, S_BELT, 'BeltStore.move_to_ready_items', M.assign_to('remaining_phase1_time'), 'print("interrupted")', which=2))
